@@ -109,7 +109,7 @@ class Cnf:
             if k == len(used):
                 out.append([bool(a) for a in assign[1:]])
                 if len(out) > cap:
-                    raise TooMany()
+                    raise TooMany(out[-1])
                 return
             v = used[k]
             nodes[0] += 1
@@ -131,6 +131,17 @@ class Cnf:
         finally:
             sys.setrecursionlimit(old)
         return out
+
+    def one_model(self, assume, budget=20000):
+        """a model extending `assume`, or None (none exists / undecided)"""
+        box = []
+        try:
+            box = self.models(assume, 0, budget)
+        except TooMany as e:
+            return e.args[0] if e.args else None
+        except Undecided:
+            return None
+        return box[0] if box else None
 
     def sat(self, assume, budget=20000):
         """True / False / None (undecided within the node budget)"""
@@ -273,6 +284,17 @@ def judge_big(spec, info):
             return (f"assignment {p} (base solution changed at (var, from, to) {diff}) is {'a' if want else 'NOT a'} CP solution but the CNF is "
                     f"{'satisfiable' if got else 'unsatisfiable'} under it"), stats
     stats["probes"], stats["probes_sat"] = len(probes), nsat
+    # decode_sat_solution of the real code on a model of the base solution
+    if is_solution(spec, spec["base"]):
+        mdl = F.one_model(assumption(info, spec["base"]), 3000)
+        if mdl is not None:
+            C2 = base()
+            _k, _c, res = C2.capture(info["model"], canned=[{v + 1: b for v, b in enumerate(mdl)}], limit=2)
+            want = {nm: x for (nm, _lo, _hi), x in zip([(n_, 0, 0) for n_ in info["names"]], spec["base"]) if not nm.startswith("_")}
+            sols = list(res.solutions) if res.solutions is not None else [res.solution]
+            if any(sol != want for sol in sols):
+                return f"decode_sat_solution returns {str(sols[0])[:200]} for a CNF model of the base solution", stats
+            stats["decoded"] = len(want)
     for k in ("certified_sat", "trusted_unsat"):
         if state.get(k):
             stats[k] = state[k]
@@ -1013,3 +1035,343 @@ CONSTRUCTED = {
     "circuit-n:1": lambda rng: {"vars": [["a", rng.choice([0, -1]), rng.randint(0, 2)]], "cons": [["circuit", [0]]]},
     "sum-aux-empty": lambda rng: {"vars": [[f"e{i}", 0, 2] for i in range(3)], "cons": [[rng.choice(["sum_le"]), [0, 1, 2], rng.choice([-1, -2])]]},
 }
+
+
+# ================================================================ round 3 - W: work volume of every internal loop
+def _with_probe_limit(spec, n, coq=True):
+    spec["probe_limit"] = n
+    if not coq:
+        spec["nocoq"] = True
+    return spec
+
+
+def work_specs(rng, thorough):
+    """one instance per internal loop of the encoder that drives THAT loop past 2^12 iterations (2^7 for the loops whose cost per
+    iteration grows quadratically), solution known by construction; thorough: 10^4 / 10^5 where affordable"""
+    C = base()
+    out = []
+    # _encode_vars / decode: > 4096 variables
+    n = 4200
+    vs = [[f"w{i}", i % 3, i % 3 + 1 + (i % 2)] for i in range(n)]
+    pt = [lo + (i % (hi - lo + 1)) for i, (_nm, lo, hi) in enumerate(vs)]
+    cons = [["cmp", ["var", i], ["const", pt[i]], False] for i in (0, n - 1)] + [["cmp", ["var", n - 2], ["var", n - 3], pt[n - 2] != pt[n - 3]]]
+    out.append(_with_probe_limit({"family": "W-variables", "vars": vs, "cons": cons, "base": pt, "slices": [[n - 1], [n - 2]]}, 40, coq=False))
+    # solve(): > 4096 constraints
+    vs = [[f"c{i}", -3, 3] for i in range(6)]
+    pt = [rng.randint(-3, 3) for _ in range(6)]
+    cons = []
+    while len(cons) < 4200:
+        i, j = rng.randrange(6), rng.randrange(6)
+        r = rng.random()
+        if r < 0.5:
+            k = rng.randint(-4, 4)
+            if k != pt[i]:
+                cons.append(["cmp", ["var", i], ["const", k], True])
+        elif r < 0.8 and pt[i] != pt[j]:
+            cons.append(["cmp", ["var", i], ["var", j], True])
+        else:
+            cons.append(["sum_le", [i, j], pt[i] + pt[j] + rng.randint(0, 2)])
+    out.append(_with_probe_limit({"family": "W-constraints", "vars": vs, "cons": cons, "base": pt, "slices": [[5], [0, 5]]}, 60, coq=False))
+    # _encode_all_different: > 4096 values in the union of the domains (inner loop values x variables ~ 5 * 10^6)
+    n = 1100 if not thorough else 2600
+    vs = [[f"a{i}", 4 * i, 4 * i + 4] for i in range(n)]
+    pt = [4 * i + rng.choice([1, 2, 3]) for i in range(n)]
+    out.append(_with_probe_limit({"family": "W-alldiff-values", "vars": vs, "cons": [["all_different", list(range(n))]], "base": pt,
+                                 "slices": [[n - 1], [n - 2, n - 1]]}, 60, coq=False))
+    # _encode_ne_expr: the folding loop (one round per term) and the pair loop of one round
+    for k in ([130] + ([200] if thorough else [])):
+        vs = [[f"t{i}", 0, 1] for i in range(k)]
+        pt = [rng.randint(0, 1) for _ in range(k)]
+        e = ["var", 0]
+        for i in range(1, k):
+            e = ["add", e, ["var", i]]
+        out.append(_with_probe_limit({"family": "W-lin-terms", "vars": vs, "cons": [["cmp", e, ["const", sum(pt)], False]], "base": pt,
+                                     "slices": [[k - 1], [0]]}, 24, coq=False))
+    w = 70 if not thorough else 110
+    vs = [[f"p{i}", -5, -5 + w - 1] for i in range(3)]
+    pt = [rng.randint(lo, hi) for _, lo, hi in vs]
+    out.append(_with_probe_limit({"family": "W-lin-product", "vars": vs, "base": pt, "slices": [[2], [0]],
+                                 "cons": [["cmp", ["add", ["add", ["var", 0], ["var", 1]], ["var", 2]], ["const", sum(pt)], False]]}, 60, coq=not thorough))
+    # _linearize: one variable met 500 times
+    vs = [["r0", 0, 3], ["r1", -2, 2]]
+    pt = [rng.randint(0, 3), rng.randint(-2, 2)]
+    e = ["var", 1]
+    for _ in range(500):
+        e = ["add", e, ["var", 0]]
+    out.append(_with_probe_limit({"family": "W-linearize", "vars": vs, "cons": [["cmp", e, ["const", 500 * pt[0] + pt[1]], False]], "base": pt,
+                                 "slices": [[0, 1]]}, 40))
+    # _encode_sum_*: recursion depth (one level per variable) and the pair loop of one level
+    for k, kind in ([(130, "sum_eq"), (130, "sum_le")] + ([(250, "sum_ge"), (600, "sum_eq")] if thorough else [])):
+        # most variables have a one-value domain so that the partial sums (and their quadratic exactly-one) stay small
+        wide = set(rng.sample(range(k), 24 if not thorough else 40))
+        vs = [[f"u{i}", 0, 1] if i in wide else [f"u{i}", i % 2, i % 2] for i in range(k)]
+        pt = [rng.randint(lo, hi) for _, lo, hi in vs]
+        out.append(_with_probe_limit({"family": "W-sum-depth", "vars": vs, "cons": [[kind, list(range(k)), sum(pt)]], "base": pt,
+                                     "slices": [[k - 1], [0]]}, 24, coq=False))
+    vs = [[f"q{i}", 2, 2 + w - 1] for i in range(3)]
+    pt = [rng.randint(lo, hi) for _, lo, hi in vs]
+    out.append(_with_probe_limit({"family": "W-sum-product", "vars": vs, "cons": [[rng.choice(["sum_eq", "sum_le", "sum_ge"]), [0, 1, 2], sum(pt)]],
+                                 "base": pt, "slices": [[2], [0]]}, 60, coq=not thorough))
+    # _encode_no_overlap: > 4096 pairs of tasks
+    n = 100 if not thorough else 150
+    durs = [rng.choice([1, 2]) for _ in range(n)]
+    order = rng.sample(range(n), n)
+    pt, t = [0] * n, 0
+    for i in order:
+        pt[i] = t
+        t += durs[i] + rng.choice([0, 1])
+    vs = [[f"n{i}", max(0, pt[i] - 1), pt[i] + 1] for i in range(n)]
+    out.append(_with_probe_limit({"family": "W-no_overlap-pairs", "vars": vs, "cons": [["no_overlap", list(range(n)), durs]], "base": pt,
+                                 "slices": [[n - 1], [0]]}, 80, coq=False))
+    # _encode_cumulative: > 4096 time points; > 128 tasks; > 4096 over-capacity subsets at one time point
+    far = 4300 if not thorough else 10500
+    vs = [["h0", 0, 2], ["h1", 1, 3], ["h2", far // 2, far // 2 + 2], ["h3", far, far + 2], ["h4", far + 1, far + 2]]
+    durs, dem, cap = [2, 2, 3, 2, 2], [2, 1, 3, 2, 2], 3
+    while True:
+        pt = [rng.randint(lo, hi) for _, lo, hi in vs]
+        if C.holds(["cumulative", [0, 1, 2, 3, 4], durs, dem, cap], pt):
+            break
+    out.append(_with_probe_limit({"family": "W-cumulative-horizon", "vars": vs, "cons": [["cumulative", [0, 1, 2, 3, 4], durs, dem, cap]], "base": pt,
+                                 "slices": [[4], [0, 1]]}, 60))
+    n = 130 if not thorough else 300
+    pt = [2 * (i // 2) + rng.choice([0, 1]) for i in range(n)]
+    vs = [[f"k{i}", max(0, pt[i] - 1), pt[i] + 1] for i in range(n)]
+    durs, dem = [1] * n, [1] * n
+    capn = max(sum(1 for x in pt if x == v) for v in set(pt))
+    out.append(_with_probe_limit({"family": "W-cumulative-tasks", "vars": vs, "cons": [["cumulative", list(range(n)), durs, dem, capn]], "base": pt,
+                                 "slices": [[n - 1], [0]]}, 80, coq=False))
+    n = 20 if not thorough else 24
+    vs = [[f"z{i}", 0, 7] for i in range(n)]
+    pt = [i // 3 for i in range(n)]
+    # duration 1, unit demands, capacity 3: at every time point any 4 of the n tasks may meet -> C(n,4) minimal over-capacity subsets
+    out.append(_with_probe_limit({"family": "W-cumulative-subsets", "vars": vs, "cons": [["cumulative", list(range(n)), [1] * n, [1] * n, 3]],
+                                 "base": pt, "slices": [[n - 1], [0]]}, 60, coq=False))
+    return out
+
+
+def work_counts(spec, info):
+    """iteration counts of the encoder's loops for this input (from the input, by formula)"""
+    vs = spec["vars"]
+    w = {"variables": len(vs), "constraints": len(spec["cons"]), "clauses": len(info["cnf"] or []),
+         "exactly_one_pairs": max((hi - lo + 1) * (hi - lo) // 2 for _n, lo, hi in vs)}
+    for c in spec["cons"]:
+        k = c[0]
+        if k in ("all_different", "circuit") and c[1]:
+            vals = set()
+            for i in set(c[1]):
+                vals |= set(range(vs[i][1], vs[i][2] + 1)) if vs[i][2] - vs[i][1] < 10**5 else set()
+            w["alldiff_values"] = max(w.get("alldiff_values", 0), len(vals))
+            w["alldiff_values_x_vars"] = max(w.get("alldiff_values_x_vars", 0), len(vals) * len(c[1]))
+        if k == "circuit":
+            n = len(c[1])
+            w["circuit_ordering"] = max(w.get("circuit_ordering", 0), n * (n - 1) * n * (n - 1) // 2)
+        if k == "cmp":
+            terms = {}
+            lin_of(c[1], 1, terms)
+            lin_of(c[2], -1, terms)
+            nz = [i for i, a in terms.items() if a]
+            w["lin_fold_rounds"] = max(w.get("lin_fold_rounds", 0), max(0, len(nz) - 2))
+            if len(nz) >= 2:
+                d = sorted((vs[i][2] - vs[i][1] + 1 for i in nz), reverse=True)
+                w["lin_pair_loop"] = max(w.get("lin_pair_loop", 0), d[0] * d[1])
+
+            def size(e):
+                n, stack = 0, [e]
+                while stack:
+                    x = stack.pop()
+                    n += 1
+                    if x[0] not in ("var", "const"):
+                        stack += [y for y in x[1:] if isinstance(y, list)]
+                return n
+
+            w["linearize_nodes"] = max(w.get("linearize_nodes", 0), size(c[1]) + size(c[2]))
+        if k in ("sum_eq", "sum_le", "sum_ge"):
+            w["sum_recursion_depth"] = max(w.get("sum_recursion_depth", 0), max(0, len(c[1]) - 2))
+            if len(c[1]) >= 2:
+                a, b = c[1][0], c[1][1]
+                w["sum_pair_loop"] = max(w.get("sum_pair_loop", 0), (vs[a][2] - vs[a][1] + 1) * (vs[b][2] - vs[b][1] + 1))
+        if k == "no_overlap":
+            n = len(c[1])
+            w["no_overlap_pairs"] = max(w.get("no_overlap_pairs", 0), n * (n - 1) // 2)
+        if k == "cumulative" and c[1]:
+            lo = min(vs[i][1] for i in c[1])
+            hi = max(vs[i][2] + d for i, d in zip(c[1], c[2]))
+            w["cumulative_time_points"] = max(w.get("cumulative_time_points", 0), hi - lo)
+            w["cumulative_tasks"] = max(w.get("cumulative_tasks", 0), len(c[1]))
+            w["cumulative_subset_clauses"] = max(w.get("cumulative_subset_clauses", 0),
+                                                 sum(1 for cl in (info["cnf"] or []) if len(cl) >= 3 and all(l < 0 for l in cl)))
+    return w
+
+
+# ================================================================ round 3 - A2: in-place edits, destroyed siblings, duplicate names
+def edited_spec(rng):
+    """a Model that is solved, then extended in place (variables and constraints added through the public API), or one of whose
+    constraints is replaced in place, or that is built right after a sibling of the same shape was encoded and destroyed"""
+    C = base()
+    while True:
+        s = twin_spec(rng) if rng.random() < 0.4 else C.rand_spec(rng)
+        if len(s["cons"]) >= 2:
+            break
+    s["family"] = "A2-edit"
+    mode = rng.choice(["edit", "edit", "replace", "pre"])
+    nv, nc = len(s["vars"]), len(s["cons"])
+    if mode == "edit":
+        ec = rng.randint(1, nc - 1)
+        used = {i for c in s["cons"][:ec] for i in _vars_of(c)}
+        ev = max(max(used, default=0) + 1, rng.randint(1, nv))
+        s["edit"] = [min(ev, nv), ec]
+    elif mode == "replace":
+        k = rng.randrange(nc)
+        newc = C.rand_constraint(rng, nv, rng.choice([s["cons"][k][0]] * 3 + [None]))
+        s["replace"] = [k, newc]
+    else:
+        pre = copy.deepcopy({"vars": s["vars"], "cons": s["cons"]})
+        for c in pre["cons"]:          # same shape, other constants
+            if c[0] in ("sum_eq", "sum_le", "sum_ge"):
+                c[2] += rng.choice([-1, 1, 2])
+            elif c[0] == "cumulative":
+                c[4] = max(0, c[4] + rng.choice([-1, 1]))
+                c[3] = [d + rng.choice([0, 1]) for d in c[3]]
+            elif c[0] in ("no_overlap",):
+                c[2] = [d + 1 for d in c[2]]
+            elif c[0] in ("all_different", "circuit"):
+                c[1] = list(reversed(c[1]))
+            elif c[0] == "cmp":
+                c[2] = ["add", c[2], ["const", rng.choice([1, -1, 2])]]
+        s["pre"] = pre
+    return s
+
+
+def _vars_of(c):
+    if c[0] == "cmp":
+        t = {}
+        lin_of(c[1], 1, t)
+        lin_of(c[2], 1, t)
+        return set(t)
+    return set(c[1])
+
+
+def dup_names_case(rng):
+    """(description of the input, verdict) for a Model in which two variables get the same name (explicitly, or through the library's own
+    auto-naming '_v<k>').  Accepted outcomes: ValueError/TypeError, or a CNF in which EVERY variable object has exactly one value and
+    whose models are exactly the solutions over the variable objects."""
+    C = base()
+    from solvor.cp import Model
+
+    nv = rng.choice([2, 2, 3])
+    doms = [(lo, lo + rng.randint(1, 2)) for lo in (rng.randint(-1, 1) for _ in range(nv))]
+    auto = rng.random() < 0.3
+    if auto:
+        names = ["_v1"] + [None] * (nv - 1)
+    else:
+        names = [rng.choice(["x", "y"]) for _ in range(nv)]
+        names[1] = names[0]
+    spec = {"vars": [[nm, lo, hi] for nm, (lo, hi) in zip(names, doms)], "cons": []}
+    for _ in range(rng.choice([1, 2])):
+        while True:
+            c = C.rand_constraint(rng, nv, rng.choice(["cmp", "cmp", "sum_eq", "sum_le", "all_different"]))
+            if not isinstance(C.build_model({"vars": [[f"t{i}", lo, hi] for i, (lo, hi) in enumerate(doms)], "cons": [c]}), tuple):
+                spec["cons"].append(c)
+                break
+    try:
+        m = C.build_model(spec)
+        if isinstance(m, tuple):
+            return spec, None
+        kind, cnf, _res = C.capture(m)
+    except (ValueError, TypeError):
+        return spec, None
+    xs = m._verif_xs
+    truth = {p for p in itertools.product(*[range(lo, hi + 1) for lo, hi in doms]) if all(C.holds(c, p) for c in spec["cons"])}
+    if kind == "unsat":
+        return spec, (f"INFEASIBLE although the model over the {nv} variable objects has solutions {sorted(truth)[:2]}" if truth else None)
+    nvars = max([abs(l) for c in cnf for l in c] + [max(l for x in xs for l in x.bool_vars.values())])
+    try:
+        models = Cnf(cnf, nvars).models([], 5000)
+    except (TooMany, Undecided):
+        return spec, None
+    got = set()
+    for mdl in models:
+        vals = [[v for v, l in x.bool_vars.items() if mdl[l - 1]] for x in xs]
+        if any(len(t) != 1 for t in vals):
+            return spec, f"a CNF model gives the variable objects the values {vals}: a variable whose name was taken again has no exactly-one clauses"
+        got.add(tuple(t[0] for t in vals))
+    if got != truth:
+        return spec, f"CNF models {sorted(got - truth)[:2]} extra / {sorted(truth - got)[:2]} missing over the variable objects"
+    return spec, None
+
+
+# ================================================================ round 3 - X: float arguments
+FLOATS = [float("inf"), float("-inf"), float("nan"), -0.0, 1e308, -1e308, 2.0**60, -(2.0**60), 0.5, 2.5, -1.5, 1e-9]
+
+
+def float_spec(rng):
+    """a small model in which numeric arguments are floats: integral floats (33.0 for 33), halves, +-inf, NaN, -0.0, 1e308, 2^60.
+    The library may reject them (TypeError / ValueError) or must encode the constraint exactly as the evaluator reads it."""
+    C = base()
+    for _ in range(200):
+        s = C.rand_spec(rng, rng.choice(["sum", "sum", "sched", "lin", "mix"]))
+        changed = False
+        for c in s["cons"]:
+            def fl(x):
+                r = rng.random()
+                return float(x) if r < 0.45 else (x + rng.choice([0.5, -0.5, 0.25]) if r < 0.65 else rng.choice(FLOATS))
+            if c[0] in ("sum_eq", "sum_le", "sum_ge") and rng.random() < 0.8:
+                c[2] = fl(c[2])
+                changed = True
+            elif c[0] == "cumulative":
+                r = rng.random()
+                if r < 0.5:
+                    c[4] = fl(c[4])
+                elif r < 0.8:
+                    c[3] = [float(d) if rng.random() < 0.6 else d + 0.5 for d in c[3]]
+                else:
+                    c[2] = [float(d) for d in c[2]]
+                changed = True
+            elif c[0] == "no_overlap" and rng.random() < 0.5:
+                c[2] = [float(d) for d in c[2]]
+                changed = True
+            elif c[0] == "cmp" and rng.random() < 0.5:
+                c[2] = ["add", c[2], ["const", rng.choice([0.0, 1.0, -0.0, 2.5])]]
+                changed = True
+        if rng.random() < 0.05:
+            v = rng.choice(s["vars"])
+            v[rng.choice([1, 2])] = float(v[1])
+            changed = True
+        if changed:
+            s["family"] = "X"
+            s["nocoq"] = True
+            return s
+    return None
+
+
+def float_boundary_spec(rng):
+    """float bounds right next to a reachable value (v +- 0.5, v +- 0.25, float(v), -0.0) for sums of 1..4 variables and for
+    cumulative capacities / demands: rounding in the wrong direction or treating 3.0 unlike 3 shows here"""
+    C = base()
+    nv = rng.choice([1, 2, 2, 3, 4])
+    vs = [[f"f{i}", lo, lo + rng.choice([1, 2, 3])] for i, lo in enumerate(rng.randint(-4, 2) for _ in range(nv))]
+    pt = [rng.randint(lo, hi) for _, lo, hi in vs]
+    frac = rng.choice([0.5, -0.5, 0.25, -0.25, 0.0, 0.0, -0.75])
+    if rng.random() < 0.7:
+        idx = [rng.randrange(nv) for _ in range(rng.choice([1, 2, 2, 2, 3, 4]))]
+        tgt = float(sum(pt[i] for i in idx)) + frac
+        if tgt == 0 and rng.random() < 0.5:
+            tgt = -0.0
+        cons = [[rng.choice(["sum_le", "sum_le", "sum_ge", "sum_ge", "sum_eq"]), idx, tgt]]
+    else:
+        tasks = [rng.randrange(nv) for _ in range(rng.choice([1, 2, 3]))]
+        durs = [rng.randint(1, 3) for _ in tasks]
+        dem = [rng.choice([1, 2, 1.0, 0.5, 1.5, 2.0]) for _ in tasks]
+        load = max(sum(d for i, du, d in zip(tasks, durs, dem) if pt[i] <= t < pt[i] + du) for t in range(min(pt) - 1, max(pt) + 4))
+        cons = [["cumulative", tasks, durs, dem, load + frac if rng.random() < 0.8 else float(int(load))]]
+    return {"family": "X", "nocoq": True, "vars": vs, "cons": cons}
+
+
+def has_nan(spec):
+    def walk(x):
+        if isinstance(x, float):
+            return x != x
+        if isinstance(x, (list, tuple)):
+            return any(walk(y) for y in x)
+        return False
+    return walk(spec["cons"])
